@@ -66,6 +66,8 @@ from exabgp.protocol.family import AFI
 from exabgp.protocol.ip import IP, IPRange, IPSelf, IPv4
 from exabgp.rib.route import Route
 
+ATTRIBUTE_BYTE_MAX = 0xFF  # attribute type code and flags are one byte each
+
 # IP address validation constants
 EXTENDED_COMMUNITY_TARGET_PARTS = 2  # Target extended community has 2 parts (ASN:value)
 LARGE_COMMUNITY_PARTS = 3  # <global administrator>:<local data 1>:<local data 2>
@@ -165,6 +167,11 @@ def attribute(tokeniser: 'Tokeniser') -> GenericAttribute:
     end = tokeniser()
     if end != ']':
         raise ValueError("invalid attribute format - missing closing ']'\n  Format: [ 0xCODE 0xFLAG 0xDATA ]")
+
+    if code_int > ATTRIBUTE_BYTE_MAX:
+        raise ValueError(f"'{code}' is not a valid attribute code\n  Must be 0x00 to 0xFF")
+    if flag_int > ATTRIBUTE_BYTE_MAX:
+        raise ValueError(f"'{flag}' is not a valid attribute flag\n  Must be 0x00 to 0xFF")
 
     return GenericAttribute.make_generic(code_int, flag_int, data_bytes)
 
